@@ -91,6 +91,11 @@ LOOP_HAZARDS = {
                         "\t}", "\thv = hv + 1", "}"],
     "break_else": ["hw = 0", "while hw < 5 {", "\tif hw < 2 {", "\t\thw = hw + 1", "\t} else {", "\t\tbreak", "\t}", "}"],
     "break_from_elseif": ["hv = 0", "from 0 to 6, hi {", "\tif hi == 9 {", "\t\thv = 1", "\t} else if hi == 3 {", "\t\tbreak", "\t}", "\thv = hv + 1", "}"],
+    # a loop that takes `continue` many times (block frames left behind would pile up), a `from` loop left from inside an `if`,
+    # a `continue` two blocks deep
+    "continue_many": ["hw = 0", "hv = 0", "while hw < 70 {", "\thw = hw + 1", "\tif hw != 99 {", "\t\tcontinue", "\t}", "\thv = hv + 1", "}"],
+    "break_if_from": ["hv = 0", "from 0 to 6, hi {", "\tif hi == 3 {", "\t\tbreak", "\t}", "\thv = hv + 1", "}"],
+    "continue_deep": ["hw = 0", "hv = 0", "while hw < 4 {", "\thw = hw + 1", "\tif hw > 1 {", "\t\tif hw < 4 {", "\t\t\tcontinue", "\t\t}", "\t}", "\thv = hv + 1", "}"],
     "break_nested_elseif": ["hw = 0", "while hw < 3 {", "\tif hw == 9 {", "\t\thw = 0", "\t} else if hw == 1 {", "\t\tif hw == 1 {", "\t\t\tbreak", "\t\t}", "\t}",
                             "\thw = hw + 1", "}"],
 }
